@@ -311,7 +311,7 @@ def findSub (pat : Bytes) : Bytes → Option (Bytes × Bytes)
     else (findSub pat s).map (fun x => (c :: x.1, x.2))
 
 def lit_ctMulti : Bytes := b!"content-type: multipart/"
-def lit_boundary : Bytes := b!"boundary=\""
+def lit_boundary : Bytes := b!"; boundary=\""
 
 /-- header block = everything up to and including the first empty line; an entity is a container when its header block has
 a `Content-Type: multipart/…` field with a quoted `boundary` parameter (the form the writer produces) -/
